@@ -210,7 +210,12 @@ def body_form(c, ctx):
         Fp = LinearForm(res).assemble(basis, prev=basis.interpolate(xx + ek))
         Fm = LinearForm(res).assemble(basis, prev=basis.interpolate(xx - ek))
         fd = (Fp - Fm) / (2 * h)
-        if not np.allclose(Jd[:, k], fd, rtol=0, atol=2e-6 * sK):
+        # truncation error of the difference quotient itself, estimated from a second step size
+        ek2 = ek / 2
+        fd2 = (LinearForm(res).assemble(basis, prev=basis.interpolate(xx + ek2))
+               - LinearForm(res).assemble(basis, prev=basis.interpolate(xx - ek2))) / h
+        trunc = np.abs(fd - fd2).max()
+        if not np.allclose(Jd[:, k], fd2, rtol=0, atol=2e-6 * sK + 4 * trunc):
             ctx.fail('jacobian_fd', f'{fam}: column {k} differs from central differences of the residual by {np.abs(Jd[:, k] - fd).max():.3e}', **sig)
             break
     if fam == 'linear' and x0 is not None:
